@@ -634,22 +634,29 @@ func c18scratch() string {
 	return d
 }
 
+// c18appendName is the base name of the pre-filled file of an append case.
+func c18appendName(c c18case, ext string) string {
+	if c.Entry == "dispatch" {
+		n := "chunk_" + c.Append + ".fastx"
+		if c.Gzip {
+			n += ".gz"
+		}
+		return n
+	}
+	return map[string]string{"fwd": "out.", "rev": "rev."}[c.Append] + ext
+}
+
+var c18ext = map[string]string{"fasta": "fasta", "fastq": "fastq", "json": "json", "csv": "csv", "seq-fa": "fastx", "seq-fq": "fastx"}
+
 // c18runFS drives the exported file-name entry points on real files. With Fault == "fsize" every
 // regular file of the process is limited to K bytes while the writers run.
 func c18runFS(c c18case) c18outcome {
 	dir := c18scratch()
 	defer os.RemoveAll(dir)
-	ext := map[string]string{"fasta": "fasta", "fastq": "fastq", "json": "json", "csv": "csv", "seq-fa": "fastx", "seq-fq": "fastx"}[c.Writer]
+	ext := c18ext[c.Writer]
 	fwd, rev := filepath.Join(dir, "out."+ext), filepath.Join(dir, "rev."+ext)
 	if c.Append != "" {
-		name := map[string]string{"fwd": fwd, "rev": rev}[c.Append]
-		if c.Entry == "dispatch" {
-			name = filepath.Join(dir, "chunk_"+c.Append+".fastx")
-			if c.Gzip {
-				name += ".gz"
-			}
-		}
-		if err := os.WriteFile(name, c18dna(c18prefill, 77), 0o600); err != nil {
+		if err := os.WriteFile(filepath.Join(dir, c18appendName(c, ext)), c18dna(c18prefill, 77), 0o600); err != nil {
 			panic(err)
 		}
 	}
@@ -825,6 +832,9 @@ func c18judge(c c18case, ref c18ref, o c18outcome) (key, desc string) {
 	}
 	if c.Gzip && phase == "final-flush" {
 		phase = "write" // the parallel gzip writer emits nearly everything while it is being closed
+	}
+	if c.Fault == "persist+close" && phase != "close" {
+		phase += "+close-fails" // a defect that needs both failures must not hide behind the persist key
 	}
 	st := "no exit was raised before WaitForLastPipe returned (exit status 0)"
 	if o.Exited {
@@ -1005,6 +1015,7 @@ func (ch *c18child) run(c c18case) (c18outcome, error) {
 func TestVerifC18(t *testing.T) {
 	log.SetOutput(io.Discard)
 	log.StandardLogger().ExitFunc = func(code int) { c18exit.record(code) }
+	signal.Ignore(syscall.SIGXFSZ) // RLIMIT_FSIZE must surface as EFBIG on write(2), not as a signal
 	if os.Getenv("C18_CHILD") != "" {
 		c18childMain()
 		return
@@ -1045,6 +1056,37 @@ func TestVerifC18(t *testing.T) {
 			r.Cap("a case was still running after 20 minutes (no verdict)")
 			return
 		}
+		if c.Entry != "" {
+			fired, key, desc := c18judgeFS(c, ref, o)
+			r.Trans(int64(len(o.Files)))
+			if fired {
+				r.Count("fault_fired", 1)
+				r.Count("fault_fired_realfile_"+c.Entry, 1)
+				if c.Paired {
+					r.Count("fault_fired_realfile_paired", 1)
+				}
+				if c.Append != "" {
+					r.Count("fault_fired_realfile_append", 1)
+				}
+			} else {
+				r.Count("fault_not_reached", 1)
+			}
+			if o.Exited && o.Code != 0 {
+				r.Count("exit_recorded_nonzero", 1)
+				r.Count("exit_recorded_nonzero_realfile", 1)
+				if !fired {
+					r.Count("exit_without_fault", 1)
+				}
+			}
+			r.State(fmt.Sprintf("%s|%s|%d|%v|%d|%v", c.hist(), c.Fault, o.N, o.Exited, o.Code, o.Files))
+			if key != "" {
+				r.Violate(key, desc, c)
+			}
+			return
+		}
+		if c.Fault == "persist+close" && o.Fired {
+			r.Count("fault_fired_persist+close", 1)
+		}
 		if o.Fired {
 			r.Count("fault_fired", 1)
 			r.Count("fault_fired_phase_"+o.Phase, 1)
@@ -1067,10 +1109,44 @@ func TestVerifC18(t *testing.T) {
 		}
 	}
 
+	referenceFS := func(c c18case) c18ref {
+		c.Fault, c.K = "none", 0
+		o := c18run(c, true)
+		o2 := c18run(c, true)
+		if o.Hung || o.GaveUp || o.Exited || len(o.Files) == 0 || fmt.Sprint(o.Files) != fmt.Sprint(o2.Files) {
+			t.Fatalf("c18: fault-free run of %s is not usable as reference (hung=%v exit=%v/%d files=%v / %v)",
+				c.hist(), o.Hung, o.Exited, o.Code, o.Files, o2.Files)
+		}
+		want := 1
+		if c.Paired {
+			want = 2
+		}
+		if c.Entry == "dispatch" {
+			want = map[string]int{"rot2": 2, "count": 3}[c.Class]
+		}
+		top := 0
+		for n, d := range o.Files {
+			if d.N == 0 || (c.Append != "" && n == c18appendName(c, c18ext[c.Writer]) && d.N <= c18prefill) {
+				t.Fatalf("c18: fault-free run of %s left %s with %d bytes", c.hist(), n, d.N)
+			}
+			if d.N > top {
+				top = d.N
+			}
+		}
+		if len(o.Files) != want {
+			t.Fatalf("c18: fault-free run of %s wrote %d files, %d expected: %v", c.hist(), len(o.Files), want, o.Files)
+		}
+		return c18ref{n: top, files: o.Files}
+	}
+
 	reference := func(h c18hist) c18ref {
 		c := c18case{Writer: h.writer, Gzip: h.gz, Data: h.data, Split: h.split, Arrival: h.arrival, Fault: "none"}
 		o := c18run(c, true)
-		if o.Hung || o.GaveUp || o.Exited || o.CloseCalls == 0 || o.N == 0 {
+		noClose := h.writer != "chunk" && c18variantOf(h.writer).noClose
+		if noClose && o.CloseCalls != 0 {
+			t.Fatalf("c18: %s closed a sink it was told to leave open", c.hist())
+		}
+		if o.Hung || o.GaveUp || o.Exited || (o.CloseCalls == 0 && !noClose) || o.N == 0 {
 			t.Fatalf("c18: fault-free run of %s is not usable as reference (hung=%v exit=%v/%d close calls=%d bytes=%d)",
 				c.hist(), o.Hung, o.Exited, o.Code, o.CloseCalls, o.N)
 		}
@@ -1078,13 +1154,17 @@ func TestVerifC18(t *testing.T) {
 		if o.N != o2.N || o.H != o2.H {
 			t.Fatalf("c18: fault-free output of %s is not deterministic", c.hist())
 		}
-		return c18ref{o.N, o.H, o.Ends}
+		return c18ref{n: o.N, h: o.H, ends: o.Ends}
 	}
 
 	if replaying {
 		var c c18case
 		if err := json.Unmarshal(r.ReplayCase(), &c); err != nil {
 			t.Fatal(err)
+		}
+		if c.Entry != "" {
+			eval(c, referenceFS(c))
+			return
 		}
 		eval(c, reference(c18hist{c.Writer, c.Gzip, c.Data, c.Split, c.Arrival}))
 		return
@@ -1124,6 +1204,8 @@ func TestVerifC18(t *testing.T) {
 	}
 	W := []string{"fasta", "fastq", "json", "csv"}
 	CW := append([]string{"chunk"}, W...)
+	NV := []string{"json-nc", "csv-nc", "csv-auto", "seq-fa", "seq-fq"} // see c18variant
+	NC := []string{"json-nc", "csv-nc"}
 	drain := []sa{{[]int{1, 1, 1}, []int{1, 2, 0}}} // chunks 1 and 2 wait for chunk 0: two drained writes
 	var plans []plan
 	if thorough {
@@ -1137,6 +1219,13 @@ func TestVerifC18(t *testing.T) {
 			{"G", []sa{{[]int{3}, []int{0}}, {[]int{1, 1, 1}, []int{2, 0, 1}}}, true, false, 991, W},
 			{"L", []sa{{[]int{3}, []int{0}}, drain[0], {[]int{1, 1, 1}, []int{2, 0, 1}}}, false, true, 0, W},
 			{"L", drain, true, true, 0, W},
+			{"S", allHist, false, true, 0, NV},
+			{"S", allHist, true, true, 0, NV},
+			{"M", []sa{{[]int{3}, []int{0}}, drain[0]}, false, true, 0, NC},
+			{"M", allHist, false, false, 97, NV},
+			{"M", allHist, true, false, 61, NV},
+			{"L", onlyFull, false, false, 127, NC},
+			{"L", onlyFull, true, false, 509, NC},
 		}
 		r.Bound("offsets", "every byte offset 0..total of the sink stream for S and M (all 11 histories, plain and gzip), for L plain on 3 histories and L gzip on 1 history; other L histories: every sink write boundary +-2 and every 127th offset; G: write boundaries +-2 and every 991st offset")
 	} else {
@@ -1149,6 +1238,12 @@ func TestVerifC18(t *testing.T) {
 			{"L", onlyFull, false, false, 509, W},
 			{"L", onlyFull, true, false, 509, W},
 			{"G", []sa{{[]int{1, 1, 1}, []int{2, 0, 1}}}, true, false, 1 << 30, []string{"fasta", "json"}},
+			{"S", allHist, false, true, 0, NV},
+			{"S", allHist, true, true, 0, NV},
+			{"M", drain, false, true, 0, NC},
+			{"M", allHist, false, false, 97, NV},
+			{"M", allHist, true, false, 61, NV},
+			{"L", drain, false, false, 509, NC},
 		}
 		r.Bound("offsets", "every byte offset 0..total of the sink stream for S (all 11 histories, plain and gzip) and for M plain on the history split=[1 1 1] arrival=[1 2 0]; other M histories: every sink write boundary +-2 and every 97th (gzip: 61st) offset; L: boundaries +-2 and every 509th offset; G: boundaries +-2")
 	}
@@ -1187,10 +1282,20 @@ func TestVerifC18(t *testing.T) {
 					mk := func(f string, kk int) c18case {
 						return c18case{Writer: w, Gzip: gz, Data: pl.data, Split: h.split, Arrival: h.arrival, Fault: f, K: kk}
 					}
-					if r.Mine(k) {
+					noClose := w != "chunk" && c18variantOf(w).noClose // the sink is never closed
+					if r.Mine(k) && !noClose {
 						eval(mk("close", 0), ref)
 					}
 					k++
+					if !noClose {
+						// the sink stops accepting bytes at a write boundary (+-2) and its Close fails too
+						for _, off := range c18offsets(ref.n, ref.ends, false, 1<<30) {
+							if r.Mine(k) {
+								eval(mk("persist+close", off), ref)
+							}
+							k++
+						}
+					}
 					for _, off := range offs {
 						if r.Mine(k) {
 							eval(mk("persist", off), ref)
@@ -1210,6 +1315,124 @@ func TestVerifC18(t *testing.T) {
 			}
 		}
 	}
+	// ---- real files: Write*ToFile (single / paired / append) and WriterDispatcher, RLIMIT_FSIZE = k
+	fsOffsets := func(c c18case, ref c18ref, all bool, stride int) []int {
+		top := ref.n
+		set := map[int]bool{}
+		add := func(k int) {
+			if k >= 0 && k <= top {
+				set[k] = true
+			}
+		}
+		lo := 0
+		if c.Append != "" {
+			// below the size of the pre-filled file every limit is the same case for that file
+			add(0)
+			add(1)
+			lo = c18prefill - 2
+		}
+		if all {
+			for k := lo; k <= top; k++ {
+				add(k)
+			}
+		} else {
+			for k := lo; k <= top; k += stride {
+				add(k)
+			}
+			for d := -2; d <= 2; d++ {
+				for _, f := range ref.files {
+					add(f.N + d) // the limit just below / at / above the final size of each file
+				}
+				for b := 0; b <= top; b += 4096 { // flush points of the 4 KiB buffer
+					add(b + d)
+					add(c18prefill + b + d)
+				}
+			}
+			add(0)
+			add(1)
+		}
+		out := make([]int, 0, len(set))
+		for k := range set {
+			out = append(out, k)
+		}
+		sort.Ints(out)
+		return out
+	}
+	type fsplan struct {
+		data   string
+		all    bool
+		stride int
+		gz     []bool
+	}
+	fsCovered := map[string]bool{} // (case, history) whose every k is enumerated by an earlier plan
+	fsHist := []sa{{[]int{3}, []int{0}}, {[]int{1, 1, 1}, []int{1, 2, 0}}, {[]int{2, 1}, []int{1, 0}}}
+	fsPlans := []fsplan{{"S", true, 0, []bool{false, true}}, {"M", false, 97, []bool{false, true}}}
+	if thorough {
+		// S: all 11 histories, every k; M: every k on the three histories above (plain), a finer
+		// stride on all 11 histories (plain and gzip)
+		fsPlans = []fsplan{{"S", true, 0, []bool{false, true}}, {"M", true, 0, []bool{false}}, {"M", false, 61, []bool{false, true}}}
+	}
+	var fsCases []c18case
+	for _, w := range []string{"fasta", "fastq", "json", "csv", "seq-fa", "seq-fq"} {
+		for _, m := range []struct {
+			paired bool
+			app    string
+		}{{false, ""}, {false, "fwd"}, {true, ""}, {true, "rev"}} {
+			fsCases = append(fsCases, c18case{Entry: "file", Writer: w, Paired: m.paired, Append: m.app})
+		}
+	}
+	for _, w := range []string{"fasta", "fastq", "seq-fa", "seq-fq"} {
+		for _, cl := range [][2]string{{"rot2", ""}, {"rot2", "1"}, {"count", ""}, {"count", "3"}} {
+			fsCases = append(fsCases, c18case{Entry: "dispatch", Writer: w, Class: cl[0], Append: cl[1]})
+		}
+	}
+	r.Bound("realfile_entries", "Write{Fasta,Fastq,JSON,CSV,Sequences}ToFile x {single, append on a pre-filled file, paired, paired+append on the pre-filled reverse file}; WriterDispatcher(Distribute(RotateClassifier(2) | AnnotationClassifier(count), batch size 1)) x {WriteFastaToFile, WriteFastqToFile, WriteSequencesToFile} x {truncate, append on one pre-filled file}; x {plain, gzip}")
+	r.Bound("realfile_fault", fmt.Sprintf("RLIMIT_FSIZE=k on every regular file of the process (EFBIG, SIGXFSZ ignored); histories: %d (quick) / all 11 (thorough; M with every k: these %d, plain); S: every k in 0..largest file; M: every %dth k + 4 KiB flush points +-2 + final sizes +-2 (thorough: also every k, plain)", len(fsHist), len(fsHist), fsPlans[len(fsPlans)-1].stride))
+	// armed only once this section is reached: a run stopped earlier by its deadline is reported as
+	// not exhaustive, not as vacuous
+	if os.Getenv("C18_FILTER") == "" {
+		r.RequireNonVacuous("fault_fired_realfile_file")
+		r.RequireNonVacuous("fault_fired_realfile_dispatch")
+		r.RequireNonVacuous("fault_fired_realfile_paired")
+		r.RequireNonVacuous("fault_fired_realfile_append")
+		r.RequireNonVacuous("exit_recorded_nonzero_realfile")
+	}
+	for _, pl := range fsPlans {
+		for _, gz := range pl.gz {
+			for _, base := range fsCases {
+				hists := fsHist
+				if thorough && !(pl.data == "M" && pl.all) {
+					hists = allHist
+				}
+				for _, h := range hists {
+					c := base
+					c.Gzip, c.Data, c.Split, c.Arrival = gz, pl.data, h.split, h.arrival
+					if f := os.Getenv("C18_FILTER"); f != "" && !strings.Contains(c.hist(), f) {
+						continue // debugging aid only (never set by ./check)
+					}
+					if pl.all {
+						fsCovered[c.hist()] = true
+					} else if fsCovered[c.hist()] {
+						continue
+					}
+					ref := referenceFS(c) // every shard: the work item numbering depends on it
+					r.Count("reference_runs", 1)
+					for _, off := range fsOffsets(c, ref, pl.all, pl.stride) {
+						if r.Mine(k) {
+							cc := c
+							cc.Fault, cc.K = "fsize", off
+							eval(cc, ref)
+						}
+						k++
+					}
+					if r.Expired() || poisoned {
+						return
+					}
+				}
+			}
+		}
+	}
+	r.Sample(c18case{Entry: "file", Writer: "fastq", Paired: true, Append: "rev", Data: "S", Split: []int{3}, Arrival: []int{0}, Fault: "fsize", K: 1600})
 	r.Sample(c18case{Writer: "fasta", Data: "S", Split: []int{3}, Arrival: []int{0}, Fault: "persist", K: 0})
 	r.Sample(c18case{Writer: "json", Gzip: true, Data: "M", Split: []int{1, 1, 1}, Arrival: []int{2, 1, 0}, Fault: "oneshot", K: 10})
 }
